@@ -16,5 +16,10 @@ def register(CHECKS, NOT_YET, ENGINES, EXTRA_ENGINE, EXTRA_NOTE):
     EXTRA_NOTE["C18"] = "Trusted base: rustc's auto-trait checking, the OS scheduler as schedule source, ThreadSanitizer (thorough), a regex scan of indextree/src. No schedule enumeration."
     ENGINES.append({"name": "itv-c18", "path": "harness/c18 + harness/c18s", "serves_properties": ["C18"], "kind_free_text": "generated arenas x 16 reader threads differential; compile-time Send/Sync crate; TSan build"})
     EXTRA_ENGINE["C18"] = "itv-c18"
-    for pid in ("C15",):
+    CHECKS["C15"] = ("§7.15", "PBT over generated programs: grammar-generated tree! literals compiled against /repo, observed forest + side-effect log vs generator-computed expectation",
+                     "The inputs are generated Rust programs: hundreds (quick) to thousands (thorough) of tree literals from a grammar are compiled in batch crates against the repository and run; each literal's resulting forest, returned id, node count and evaluation log are compared with what the generator computed; failing literals are shrunk by batch-compiled candidates. Bounded grammar; sampled.")
+    EXTRA_NOTE["C15"] = "Trusted base: the literal renderer/expectation generator in harness/c15, rustc and cargo (one build per batch). Program space bounded by the grammar."
+    ENGINES.append({"name": "itv-c15", "path": "harness/c15", "serves_properties": ["C15"], "kind_free_text": "proptest grammar generator for tree! programs + batch builder/runner/shrinker"})
+    EXTRA_ENGINE["C15"] = "itv-c15"
+    for pid in ():
         NOT_YET[pid] = "check under construction in this session (see DESIGN.md §7); not claimed until its machinery is committed"
